@@ -47,3 +47,15 @@ var _ *imapserver.FetchWriter
 //@   overflow
 //@   requires msg != nil && item != nil
 //@   requires item.Partial != nil ==> item.Partial.Offset >= 0 && item.Partial.Size >= 0
+
+// UID allocation: a new message gets the mailbox's next UID, which then
+// advances by one, so UIDs strictly increase along the message list and are
+// never reused; the returned APPENDUID names that message.
+//
+//@ func (mbox *Mailbox) appendBytes(buf []byte, options *imap.AppendOptions) (result *imap.AppendData)
+//@   props C09:post,pre@call
+//@   requires mbox != nil && options != nil && mbox.tracker != nil && mbox.uidNext < 4294967295
+//@   ensures result != nil && result.UID == old(mbox.uidNext) && result.UIDValidity == mbox.uidValidity
+//@   ensures mbox.uidNext == old(mbox.uidNext)+1 && mbox.uidValidity == old(mbox.uidValidity)
+//@   ensures len(mbox.l) == old(len(mbox.l))+1 && mbox.l[len(mbox.l)-1] != nil && mbox.l[len(mbox.l)-1].uid == old(mbox.uidNext)
+//@   ensures forall k int :: 0 <= k && k < old(len(mbox.l)) ==> mbox.l[k] == old(mbox.l[k])
